@@ -28,7 +28,8 @@ RULE = (
     "compare with the reference, repeat without the warm-up records (differential), store and re-load race.json. Cluster-level "
     "results: 30 index-stats / GC / segment / size / ingest metrics (with per-shard values where the telemetry device records them) "
     "present all, none, each alone, all but each (thorough: every pair) x 1..3 values each: computed result = documented aggregation, "
-    "every attribute identical after the round trip through race.json. "
+    "every attribute identical after the round trip through race.json. Race structures: every combination of 8 optional parts "
+    "(auto-generated challenge, user tags, track/car/plugin parameters, car list, revisions, cluster details) stored, found by id, listed, every attribute and result read back. "
     "non-trivial = at least 2 normal records; distinct = the multiset"
 )
 ASSUMPTIONS = [
@@ -466,6 +467,86 @@ def check_global(case, res):
                       {"global": [label, list(present), nvals]})
 
 
+def structure_cases(tier):
+    """race result structures: every combination of the optional parts of a race (named vs. auto-generated challenge, user tags, track /
+    car / plugin parameters, car as a list, track revision, cluster details) x two record sets"""
+    for bits in itertools.product((0, 1), repeat=8):
+        for recs in ((0, 1) if tier == "thorough" else (sum(bits) % 2,)):
+            yield ("structure", bits, recs)
+
+
+def check_structure(case, res):
+    _, bits, recs = case
+    auto, tags, tparams, carlist, cparams, pparams, trev, cluster = bits
+    e = env()
+    m = e["metrics"]
+    import json
+
+    from esrally.track import track
+
+    v = None
+    try:
+        records = {0: [(1.0, True, True), (3.0, True, False)], 1: [(2.0, True, True)]} if recs else {0: [(5.0, True, True)], 1: [(2.0, False, True), (4.0, True, True), (6.0, True, True)]}
+        store = build_store(records)
+        ch = track.Challenge("c", default=True, schedule=e["challenge"].schedule, auto_generated=bool(auto))
+        race = m.Race(
+            "2.12.0", "abc123" if trev else None, "verif", "verif-race", RACE_TS, "benchmark-only", {"name": "n", "k": "v"} if tags else {},
+            e["track"], {"p": 1, "q": "x"} if tparams else {}, ch, ["4gheap", "ea"] if carlist else "defaults", {"heap": "4g"} if cparams else {},
+            {"plug": True} if pparams else {}, track_revision="t0a1" if trev else None,
+            team_revision="tm1" if cluster else None, distribution_version="8.11.0" if cluster else None,
+            distribution_flavor="default" if cluster else None, revision="r3v" if cluster else None,
+        )
+        gs = m.calculate_results(store, race)
+        race.add_results(gs)
+        fs = m.FileRaceStore(e["cfg"])
+        fs.store_race(race)
+        try:
+            back = fs.find_by_race_id("verif-race")
+        except Exception as ex:  # noqa
+            back = None
+            v = ("stored-race-not-readable", f"{type(ex).__name__}: {ex}")
+        if back is not None:
+            listed = [r for r in fs.list() if r.race_id == "verif-race"]
+            if len(listed) != 1:
+                v = ("stored-race-not-listed", f"list races returns {len(listed)} entries for the stored race")
+        if back is not None and v is None:
+            want = {
+                "race_id": race.race_id, "race_timestamp": race.race_timestamp, "rally_version": race.rally_version, "rally_revision": race.rally_revision,
+                "environment_name": race.environment_name, "pipeline": race.pipeline, "user_tags": race.user_tags, "track": race.track_name,
+                "challenge_name": None if auto else "c", "car": race.car, "car_name": race.car_name, "track_params": race.track_params or None,
+                "car_params": race.car_params or None, "plugin_params": race.plugin_params or None, "track_revision": race.track_revision,
+                "team_revision": race.team_revision, "distribution_version": race.distribution_version,
+                "distribution_flavor": race.distribution_flavor, "revision": race.revision,
+            }
+            for k, w in want.items():
+                got = getattr(back, k)
+                if k.endswith("_params"):
+                    got = got or None
+                if got != w:
+                    v = ("roundtrip-race-attribute", f"{k}: stored {w!r}, read back {got!r}")
+                    break
+            if v is None:
+                gb = m.GlobalStats(back.results)
+                if json.loads(json.dumps(gs.as_flat_list())) != json.loads(json.dumps(gb.as_flat_list())):
+                    v = ("roundtrip-flat-list", "flat lists differ")
+                for name, _o, _t in TASKS:
+                    if v is None and json.loads(json.dumps(gs.metrics(name))) != gb.metrics(name):
+                        v = ("roundtrip-task-metrics", f"task {name}: computed {gs.metrics(name)} read back {gb.metrics(name)}")
+    except Exception as ex:  # noqa
+        import traceback
+
+        v = ("raises", f"{type(ex).__name__}: {ex} @ {traceback.extract_tb(ex.__traceback__)[-1][:3]}")
+    names = ("auto-generated-challenge", "user-tags", "track-params", "car-list", "car-params", "plugin-params", "revisions", "cluster-details")
+    present = [n for n, b in zip(names, bits) if b]
+    res.case(
+        case_repr={"race_structure": present, "records": recs} if res.sample_now(17) else None,
+        nontrivial_key=("R", bits, recs),
+        outcome_key=("R", v[0] if v else "ok", sum(bits)),
+    )
+    if v:
+        res.violation(f"results:{v[0]}" + (":auto-generated-challenge" if auto else ""), f"race with {present or 'no optional parts'}: {v[1]}", {"structure": [list(bits), recs]})
+
+
 def _shard(arg):
     import logging
 
@@ -475,6 +556,8 @@ def _shard(arg):
     for i, it in enumerate(items):
         if kind == "global":
             check_global(it, res)
+        elif kind == "structure":
+            check_structure(it, res)
         elif kind == "small":
             check_case(it, res, roundtrip=(i % 4 == 0))
         else:
@@ -488,7 +571,10 @@ def run(tier, seed):
     jobs = [("small", ch) for ch in par.chunks(small, par.NPROC * 3)] + [("big", [b]) for b in big]
     gl = list(global_cases(tier))
     jobs += [("global", ch) for ch in par.chunks(gl, par.NPROC)]
+    st = list(structure_cases(tier))
+    jobs += [("structure", ch) for ch in par.chunks(st, par.NPROC)]
     res = par.pmap(_shard, jobs, seed=seed)
+    res.extra["race_structures"] = len(st)
     res.extra["cluster_level_cases"] = len(gl)
     res.extra["small_multisets"] = len(small)
     res.extra["boundary_streams"] = len(big)
@@ -505,6 +591,8 @@ def replay(data):
     if data.get("global"):
         g = data["global"]
         check_global((g[0], tuple(g[1]), g[2]), res)
+    elif data.get("structure"):
+        check_structure(("structure", tuple(data["structure"][0]), data["structure"][1]), res)
     elif data.get("structured"):
         for spec, recs in boundary_cases("thorough"):
             if {str(k): len(r) for k, r in recs.items()} == data["sizes"]:
